@@ -79,6 +79,23 @@ type encOuter struct {
 	Child *encOuter
 	T     encTagMap
 	TS    *encTagStruct
+	MMid  map[string]*encMid
+	MMidV map[string]encMid
+	Any   interface{}
+}
+
+// encMid is a struct that owns maps and is itself stored in maps.
+type encMid struct {
+	Tag   string `class:"secret"`
+	M     map[string]string
+	MB    map[string][]byte
+	Inner map[string]*encLeaf
+}
+
+// encIgnored is a type that scenarios may list in Filter.IgnoreTypes.
+type encIgnored struct {
+	Name  string   `class:"secret"`
+	Paths []string `class:"secret"`
 }
 
 // encTagMap is a Taggable map.
@@ -154,6 +171,7 @@ type encGen struct {
 	exp       map[string]*leafExp // canary -> expectation
 	overrides map[encrypt.DataClassification]encrypt.FilterOperation
 	fill      int // percent of leaves that get a value
+	withIgnored bool
 }
 
 func opTreat(op encrypt.FilterOperation) string {
@@ -365,7 +383,45 @@ func (g *encGen) outer(where string, depth int) *encOuter {
 	if depth > 0 && g.want() {
 		o.Child = g.outer(where+".Child", depth-1)
 	}
+	if g.want() {
+		o.MMid = map[string]*encMid{"m": g.mid(where + ".MMid{}")}
+	}
+	if g.want() {
+		o.MMidV = map[string]encMid{"m": *g.mid(where + ".MMidV{}")}
+	}
+	if g.withIgnored && g.want() {
+		o.Any = g.ignored(where + ".Any")
+		if o.MI == nil {
+			o.MI = map[string]interface{}{}
+		}
+		o.MI["ign"] = g.ignored(where + ".MI{ign}")
+	}
 	return o
+}
+
+func (g *encGen) mid(where string) *encMid {
+	m := &encMid{}
+	if g.want() {
+		m.Tag = g.canary(g.treatFor("secret", true), where+".Tag")
+	}
+	if g.want() {
+		m.M = map[string]string{"k": g.canary("redact", where+".M{}")}
+	}
+	if g.want() {
+		m.MB = map[string][]byte{"k": []byte(g.canary("redact", where+".MB{}"))}
+	}
+	if g.want() {
+		l := g.leaf(where + ".Inner{}")
+		m.Inner = map[string]*encLeaf{"i": &l}
+	}
+	return m
+}
+
+// ignored builds a value of a type that may be listed in IgnoreTypes: what
+// happens to its strings is not specified (treat "any"), but the caller's
+// object must never be touched (C10).
+func (g *encGen) ignored(where string) *encIgnored {
+	return &encIgnored{Name: g.canary("any", where+".Name"), Paths: []string{g.canary("any", where+".Paths[]")}}
 }
 
 func (g *encGen) tagMap(where string) encTagMap {
@@ -430,7 +486,7 @@ func (g *encGen) payload(kind int, depth int) (interface{}, string) {
 		s := g.canary(g.treatFor("secret", true), "*string")
 		return &s, "*string"
 	case 7:
-		return map[string]interface{}{"a": g.canary("redact", "map{}string"), "n": 1, "in": map[string]string{"x": g.canary("redact", "map{}map{}")}}, "map[string]interface{}"
+		return map[string]interface{}{"a": g.canary("redact", "map{}string"), "n": 1, "in": map[string]string{"x": g.canary("redact", "map{}map{}")}, "mid": g.mid("map{}*mid")}, "map[string]interface{}"
 	case 8:
 		return map[string]string{"a": g.canary("redact", "map[string]string{}")}, "map[string]string"
 	case 9:
@@ -550,6 +606,9 @@ func (c *encCheck) leafCheck(in, out []byte, path string) {
 			// a struct passed by value is not filtered at all: one finding, whatever the path
 			class = "payload=struct-value"
 		}
+		if e.treat == "any" {
+			return
+		}
 		if e.treat == "keep" {
 			if c.prop == "C10" {
 				c.rc.Failf("C10.public-altered", class, "public value at %s was changed: %q -> %q", path, in, out)
@@ -657,7 +716,7 @@ func canaryScan(exp map[string]*leafExp, out *el.Event) []string {
 	}
 	var found []string
 	for c, e := range exp {
-		if e.treat == "keep" {
+		if e.treat == "keep" || e.treat == "any" {
 			continue
 		}
 		if strings.Contains(plain, c) || strings.Contains(plain, base64.StdEncoding.EncodeToString([]byte(c))) {
@@ -735,6 +794,10 @@ func runEncrypt(rc *RunCtx, prop string) {
 		fw = &failWrapper{Wrapper: kv.w, failOn: func(pt []byte) bool { return int(fnv(string(pt))%uint64(mod)) == 0 }}
 		f.Wrapper = fw
 	}
+	withIgnored := tp.Choose(3, "ignoretypes") == 0
+	if withIgnored {
+		f.IgnoreTypes = []reflect.Type{reflect.TypeOf(&encIgnored{})}
+	}
 	versions := []*keyVersion{kv}
 	cur := kv
 	nEvents := 1 + tp.Choose(3, "nevents")
@@ -771,7 +834,7 @@ func runEncrypt(rc *RunCtx, prop string) {
 			}
 			d := &drawRec{tape: tp}
 			fill := []int{15, 40, 80}[tp.Choose(3, "fill")]
-			g := &encGen{d: d, exp: map[string]*leafExp{}, overrides: overrides, fill: fill}
+			g := &encGen{d: d, exp: map[string]*leafExp{}, overrides: overrides, fill: fill, withIgnored: withIgnored}
 			kind := tp.Choose(13, "kind")
 			depth := tp.Choose(3, "depth")
 			var payload interface{}
@@ -801,7 +864,7 @@ func runEncrypt(rc *RunCtx, prop string) {
 				payload, top = g.payload(kind, depth)
 			}
 			// an independent copy, built from the same draws, for the before/after comparison
-			g2 := &encGen{d: &drawRec{rec: d.rec, replay: true}, exp: map[string]*leafExp{}, overrides: overrides, fill: fill}
+			g2 := &encGen{d: &drawRec{rec: d.rec, replay: true}, exp: map[string]*leafExp{}, overrides: overrides, fill: fill, withIgnored: withIgnored}
 			var snapshot interface{}
 			switch {
 			case badTag:
@@ -920,6 +983,8 @@ func runEncrypt(rc *RunCtx, prop string) {
 			chk := &encCheck{rc: rc, prop: prop, exp: g.exp, top: top, input: ev.Payload, output: out.Payload}
 			chk.verify = func(treat string, plain []byte, got string) string {
 				switch treat {
+				case "any":
+					return ""
 				case "keep":
 					if got != string(plain) {
 						return "value changed"
